@@ -46,8 +46,10 @@ RULE = ("cases = full product {certificate kind (valid exact / wildcard / CN-onl
         "self-signed; several failures at once)} x {trust flag, no callback, accept all, reject all, accept first k, "
         "reject the j-th, answer 2} x {STARTTLS, legacy SSL, xmpp_conn_tls_start on a raw connection} x {CA file, "
         "none} every run, plus CA directory / default store from the environment / other root / missing file, "
-        "domains in several spellings (case, sub-domain, IDN A-label, IP literal, empty, leading dot), server that "
-        "closes or answers garbage, TLS disabled; followed by gated / ungated user sends and clock ticks; distinct = "
+        "domains in several spellings (case, sub-domain, IDN A-label, IP literal, empty, leading dot), presented "
+        "identifiers fuzzed around the domain (case, wildcards in every position, partial / double / inner "
+        "wildcards, bad labels, trailing / leading dots, NUL, one-byte changes), server that closes, answers "
+        "garbage or never answers, TLS disabled; followed by gated / ungated user sends and clock ticks; distinct = "
         "tag (path, trust, callback class, CA mode, server mode, ground truth, kind, outcome shape)")
 
 
@@ -184,6 +186,81 @@ DOMAINS = [b"foo.example.org", b"example.org", b"Foo.EXAMPLE.org", b"a.b.example
            b"xn--bcher-kva.example.org", b"192.0.2.1", b"xmpp-1.example.org"]
 
 
+def fuzz_pattern(rng, dom):
+    """a presented identifier in the neighbourhood of `dom`"""
+    labs = dom.split(b".")
+    first, par = labs[0], parent(dom)
+    pp = parent(par)
+
+    def recase(b):
+        return bytes((c ^ 32) if (65 <= c <= 90 or 97 <= c <= 122) and rng.random() < 0.5 else c for c in b)
+
+    k = rng.randrange(24)
+    if k == 0:
+        return dom
+    if k == 1:
+        return recase(dom)
+    if k == 2:
+        return b"*." + par
+    if k == 3:
+        return b"*." + recase(par)
+    if k == 4:
+        return b"*." + dom
+    if k == 5:
+        return b"*." + pp
+    if k == 6:
+        c = rng.randrange(0, len(first) + 1)
+        return first[:c] + b"*" + b"." + par
+    if k == 7:
+        c = rng.randrange(0, len(first) + 1)
+        return b"*" + first[c:] + b"." + par
+    if k == 8:
+        return b"*.*." + pp
+    if k == 9:
+        return b"**." + par
+    if k == 10:
+        return dom + b"."
+    if k == 11:
+        return b"." + dom
+    if k == 12:
+        return par
+    if k == 13:
+        i = rng.randrange(len(dom))
+        return dom[:i] + bytes([dom[i] ^ 1]) + dom[i + 1:]
+    if k == 14:
+        return dom + b"\0" + rng.choice([b"", b".evil.example"])
+    if k == 15:
+        return first + b".*." + pp
+    if k == 16:
+        bad = rng.choice([b"_x", b"-x", b"x-", b"", b"x_y", b"x y"])
+        return b"*." + b".".join([bad] + par.split(b".")[1:])
+    if k == 17:
+        return b""
+    if k == 18:
+        return b"sub." + dom
+    if k == 19:
+        return b"*"
+    if k == 20:
+        return b"*." + par + b"."
+    if k == 21:
+        return rng.choice([b"*.org", b"*.example", b"*.2.1"])
+    if k == 22:
+        return b"*." + par.split(b".")[0] + b"x." + b".".join(par.split(b".")[1:])
+    return b"other.example.com"
+
+
+def fuzz_case(rng):
+    dom = rng.choice(DOMAINS + [b"localhost", b"a-b.c-d.example.org", b"7.example.org", b"x.y.z.example.org"])
+    sans = [("d", fuzz_pattern(rng, dom)) for _ in range(rng.choice([0, 1, 1, 1, 2, 3]))]
+    if rng.random() < 0.2:
+        sans.append(rng.choice([("x", dom), ("i", bytes([192, 0, 2, 1]))]))
+    cn = fuzz_pattern(rng, dom) if rng.random() < 0.6 else None
+    lf = leaf("root", -1, 365, cn, sans)
+    cbm = rng.choice(["none", "none", "rej", "acc"])
+    return ["cfg dom=%s path=%s flags=0 cb=%s ca=file srv=ok leaf=%s" % (hx(dom), rng.choice(["l", "l", "s", "d"]), cbm, lf),
+            "start", "end"]
+
+
 def mk_case(dom, kind_name, cbmode, path, ca, srv="ok", disabled=False, follow=None):
     lf, inter = kinds(dom)[kind_name]
     flags = (8 if cbmode == "trust" else 0) | (1 if disabled else 0)
@@ -244,9 +321,13 @@ def generate(rng, tier, override=0):
         cbm = rng.choice(CB_ALL + ["k0", "k2", "k3", "r2", "r3", "v7"])
         path = rng.choice(["s", "l", "d"])
         ca = rng.choice(["file", "file", "none", "path", "env", "other", "missing"])
-        srv = rng.choice(["ok"] * 8 + ["close", "garbage"])
+        srv = rng.choice(["ok"] * 12 + ["close", "garbage", "mute"])
         disabled = path != "l" and cbm != "trust" and rng.random() < 0.05
         cases.append(mk_case(d, kind, cbm, path, ca, srv, disabled, follow_ups(rng)))
+    # (3b) presented identifiers in the neighbourhood of the domain: OpenSSL's matcher, the Lean
+    #      specification `namesHost` and this module's matcher must agree on every one
+    for _ in range(400 if tier == "quick" else 6000):
+        cases.append(fuzz_case(rng))
     # (4) domains the connect must refuse
     for d in (b"", b".example.org", b".foo.example.org"):
         for path in ("s", "l", "d"):
